@@ -2755,8 +2755,13 @@ class Parameters:
             self_.update(dict(params, **triggers))
         finally:
             self_._TRIGGER = False
-            self_._events += events
-            self_._state_watchers += watchers
+            # Put the events and watchers queued before the trigger back in
+            # front (chronological order), without queueing a watcher twice
+            self_._events = events + self_._events
+            self_._state_watchers = watchers + [
+                w for w in self_._state_watchers
+                if not any(w is queued for queued in watchers)
+            ]
 
     def _update_event_type(self_, watcher, event, triggered):
         """Return an updated Event object with the type field set appropriately."""
